@@ -27,14 +27,23 @@ def is_call(n, name, nargs=None):
 
 
 def glob_call(n):
-    """glob.glob(<pattern expr>, recursive=<bool>) -> (pattern expr node, recursive flag)"""
+    """glob.glob(<pattern expr>, recursive=<bool>)  or  [it for it in glob.glob(...) if not os.path.isdir(it)]
+    -> (pattern expr node, recursive flag, files_only flag)"""
+    files_only = False
+    if isinstance(n, ast.ListComp):
+        need(len(n.generators) == 1 and isinstance(n.elt, ast.Name) and isinstance(n.generators[0].target, ast.Name)
+             and n.elt.id == n.generators[0].target.id and not n.generators[0].is_async and len(n.generators[0].ifs) == 1
+             and ast.unparse(n.generators[0].ifs[0]) == "not os.path.isdir(%s)" % n.elt.id,
+             "glob result filter is not `[x for x in glob.glob(...) if not os.path.isdir(x)]`: " + ast.unparse(n), n)
+        files_only = True
+        n = n.generators[0].iter
     need(is_call(n, "glob.glob", 1), "expected glob.glob(<pattern>, ...): " + ast.unparse(n), n)
     rec = False
     for k in n.keywords:
         need(k.arg == "recursive" and isinstance(k.value, ast.Constant) and isinstance(k.value.value, bool),
              "glob.glob keyword other than recursive=<bool>: " + ast.unparse(n), n)
         rec = k.value.value
-    return n.args[0], rec
+    return n.args[0], rec, files_only
 
 
 def pattern_atoms(pat):
@@ -108,7 +117,6 @@ def gen_select(repo, L):
     sel_if, git_if = sel_if[0], git_if[0]
     need(main.body.index(git_if) == main.body.index(sel_if) + 1, "the gitignore filter does not directly follow the selection")
     need(not git_if.orelse, "`if args.use_gitignore` has an else branch")
-    init = main.body[main.body.index(sel_if) - 2: main.body.index(sel_if)]
     need("files = []" in [ast.unparse(x) for x in main.body[:main.body.index(sel_if)]], "`files = []` not found before the selection")
     blk = sel_if.orelse
     need(len(blk) == 4, "selection block is not `stack = []; stack += ...; for item in stack: ...; del stack`")
@@ -118,7 +126,7 @@ def gen_select(repo, L):
     need(isinstance(st, ast.AugAssign) and isinstance(st.op, ast.Add) and ast.unparse(st.target) == "stack"
          and isinstance(st.value, ast.IfExp) and ast.unparse(st.value.test) == "args.file"
          and ast.unparse(st.value.body) == "args.file", "initial work list is not `args.file if args.file else glob(...)`", st)
-    p0, rec0 = glob_call(st.value.orelse)
+    p0, rec0, fo0 = glob_call(st.value.orelse)
     need(isinstance(p0, ast.Constant) and isinstance(p0.value, str), "no-argument glob pattern is not a string constant", st)
     # ---- the loop
     loop = blk[2]
@@ -158,7 +166,7 @@ def gen_select(repo, L):
     push = t3.body[0]
     need(isinstance(push, ast.AugAssign) and isinstance(push.op, ast.Add) and ast.unparse(push.target) == "stack",
          "directory branch does not extend the work list", push)
-    p1, rec1 = glob_call(push.value)
+    p1, rec1, fo1 = glob_call(push.value)
     need(isinstance(p1, ast.BinOp) and isinstance(p1.op, ast.Add) and ast.unparse(p1.left) == "str(path)"
          and isinstance(p1.right, ast.Constant) and isinstance(p1.right.value, str) and p1.right.value.startswith("/"),
          "directory glob pattern is not `str(path) + '/<pattern>'`", push)
@@ -208,9 +216,11 @@ def gen_select(repo, L):
     o += "Definition glob_cwd_pattern : string := %s.\n" % lit(p0.value)
     o += "Definition glob_cwd_recursive : bool := %s.\n" % ("true" if rec0 else "false")
     o += "Definition glob_cwd_last : list patom := %s.\n" % pattern_atoms(p0.value)
+    o += "Definition glob_cwd_files_only : bool := %s.   (* results filtered by `not os.path.isdir` *)\n" % ("true" if fo0 else "false")
     o += "Definition glob_dir_pattern : string := %s.   (* appended to str(path) *)\n" % lit(p1.right.value)
     o += "Definition glob_dir_recursive : bool := %s.\n" % ("true" if rec1 else "false")
-    o += "Definition glob_dir_last : list patom := %s.\n\n" % pattern_atoms(p1.right.value[1:])
+    o += "Definition glob_dir_last : list patom := %s.\n" % pattern_atoms(p1.right.value[1:])
+    o += "Definition glob_dir_files_only : bool := %s.\n\n" % ("true" if fo1 else "false")
     o += "Definition accepted_suffixes : list str := [%s].\n" % "; ".join(coq_str(x) for x in suffixes)
     o += "Definition test_order : list string := [%s].\n\n" % "; ".join(lit(x) for x in tests)
     o += "Definition msg_missing : list fpart := %s.\n" % msg_missing
